@@ -339,6 +339,15 @@ def normalise(fn_node: ast.AST, alpha: bool = True) -> NormResult:
     new_body = _flatten(new_body)
     new_body = _inline_one_yield_generators(new_body, res)
     new_body = [s for s in new_body if not isinstance(s, ast.Pass)] or [ast.Pass()]
+    # the rewrites above leave non-canonical shapes behind (narrowed `try`, inlined generators)
+    from . import canon as _canon
+
+    if _canon.ENABLED:
+        shell = ast.FunctionDef(name="_twin", args=node.args, body=new_body, decorator_list=[], returns=None,
+                                type_comment=None, type_params=[])
+        ast.fix_missing_locations(shell)
+        _canon.Canon(_canon.DEFAULT_MUTABLE_ATTRS).function(shell)
+        new_body = shell.body or [ast.Pass()]
     if alpha:
         keep = {"self", "cls"}
         order = _binding_order(new_body, [p for p in params if p not in keep])
